@@ -96,6 +96,8 @@ pub struct Runner<'a> {
     pub scn_no: usize,
     pub step_no: usize,
     pub pool_descs: HashMap<SaitoSignature, TxDesc>,
+    /// whether the last block-level edit changed the block at all (e.g. swapping in a one-tx block does not)
+    pub last_edit_effective: bool,
 }
 
 impl<'a> Runner<'a> {
@@ -118,6 +120,7 @@ impl<'a> Runner<'a> {
             scn_no,
             step_no: 0,
             pool_descs: HashMap::new(),
+            last_edit_effective: false,
         };
         let g = r.world.genesis.clone();
         r.by_hash.insert(g.hash, "b1".into());
@@ -201,7 +204,12 @@ impl<'a> Runner<'a> {
             .rt
             .block_on(builder.create_block(&creator, spec_for(pb.hash, ts, txs, gt)))?;
         if let Some(e) = &st.bedit {
+            let before = block.serialize_for_net(saito_core::core::consensus::block::BlockType::Full);
             apply_block_level_edit(&mut block, e, &creator, &self.world, ts);
+            let after = block.serialize_for_net(saito_core::core::consensus::block::BlockType::Full);
+            self.last_edit_effective = before != after;
+        } else {
+            self.last_edit_effective = false;
         }
         self.register_block_outputs(&block, &label, height, &descs);
         self.by_hash.insert(block.hash, label.clone());
@@ -471,8 +479,9 @@ pub fn run_scenario(
             "block" => match r.build_block(st) {
                 Ok(label) => {
                     let (res, rres) = r.deliver(&label, wd);
+                    let bedit = if r.last_edit_effective { st.bedit.clone() } else { None };
                     let ev = r.block_event(&label, &res, "builder",
-                        json!({"replica": rres, "tag": st.tag, "bedit": st.bedit, "redelivery": false}));
+                        json!({"replica": rres, "tag": st.tag, "bedit": bedit, "redelivery": false}));
                     trace.emit(ev);
                     if res.starts_with("Panic") {
                         break;
